@@ -13,6 +13,8 @@ import (
 	"fmt"
 	"math/rand"
 	"strings"
+
+	"verifharness/wire"
 )
 
 // c14Opt is one combination of server options.
@@ -109,10 +111,14 @@ type c14Gen struct {
 	// fit into the worker pool so that every one of them is running when the CLOSE arrives).
 	Held int   `json:"held"`
 	Seed int64 `json:"seed"`
+	// Cmd, when > 0: behind every Cmd-th READ/WRITE of a segment stands a handle request that is neither — FSTAT and
+	// FSETSTAT (permissions) in turn, FSTAT only on a read-only server — on the handle that is closed next (not counted
+	// in Segs, never held).
+	Cmd int `json:"handle_command_every,omitempty"`
 }
 
 func (g c14Gen) text() string {
-	return fmt.Sprintf("deep %s options=%s kinds=%v segs=%v spread=%v held=%d seed=%d", g.Server, g.Opt.text(), g.Kinds, g.Segs, g.Spread, g.Held, g.Seed)
+	return fmt.Sprintf("deep %s options=%s kinds=%v segs=%v spread=%v held=%d seed=%d cmd=%d", g.Server, g.Opt.text(), g.Kinds, g.Segs, g.Spread, g.Held, g.Seed, g.Cmd)
 }
 
 func (g c14Gen) valid() error {
@@ -124,6 +130,9 @@ func (g c14Gen) valid() error {
 	}
 	if g.Held < 0 || g.Held > 8 {
 		return fmt.Errorf("gen: held %d", g.Held)
+	}
+	if g.Cmd < 0 {
+		return fmt.Errorf("gen: handle command every %d", g.Cmd)
 	}
 	tot := 0
 	for i, k := range g.Kinds {
@@ -153,6 +162,7 @@ func (g c14Gen) expand() (p gProg, hold []int) {
 		p.Handles = append(p.Handles, gHandle{Name: fmt.Sprintf("h%d", i), Kind: k, Path: fmt.Sprintf("%s%d", files[k], i+1)})
 	}
 	nr, nw := make([]int, len(g.Kinds)), make([]int, len(g.Kinds))
+	ncmd := 0
 	for si, n := range g.Segs {
 		for j := 0; j < n; j++ {
 			hi := si
@@ -177,6 +187,14 @@ func (g c14Gen) expand() (p gProg, hold []int) {
 				hold = append(hold, len(p.Ops))
 			}
 			p.Ops = append(p.Ops, o)
+			if g.Cmd > 0 && (j+1)%g.Cmd == 0 {
+				ncmd++
+				if ncmd%2 == 0 && !g.Opt.ReadOnly {
+					p.Ops = append(p.Ops, gOp{K: "fsetstat", H: p.Handles[si].Name, AF: wire.APerm})
+				} else {
+					p.Ops = append(p.Ops, gOp{K: "fstat", H: p.Handles[si].Name})
+				}
+			}
 		}
 		p.Ops = append(p.Ops, gOp{K: "close", H: p.Handles[si].Name})
 	}
